@@ -142,6 +142,17 @@ CHECKS['C04'] = (
     'on every explored (basis, format) — partial, stated as such.',
     BASE_NOTE + 'the tokeniser/coverage oracle of the harness; rounding allowed for acesii and crystal at the printed width.', '6/C04')
 
+CHECKS['C03'] = (
+    'Lean 4 theorems (a printed table row is read back token for token with only the exponent marker changed; writer and reader letter conventions of '
+    'the must-succeed formats agree, over call sites regenerated from the writer/reader modules; letters and integers inverse for l<25; soundness of the '
+    'sameFuncs checker) + the verified checker and an exact-decimal oracle on read(write(b)) for the 14 write+read formats',
+    'Proof (on the model): read_printed_row (tokens of replace_d(convert_exp(row)) = cells up to e/E/D), tokens_map, marker_roundtrip, '
+    'letter_conventions_agree, g94_uniform, letters_inverse, write_read_formats, readback_checker_sound. Tie/validation: every explored (basis, format, '
+    'header, subset) must read back with equal elements / function sets / ECP terms or raise; gaussian94, nwchem, turbomole must succeed, also through '
+    '.bz2 + extension autodetection and convert_* against direct export. Partial: the section parsers of the readers (partition_lines, per-format '
+    'regular expressions) are not modelled; they are covered by the verified checker on explored inputs only.',
+    BASE_NOTE + 'contiguous momenta up to l = 11 in generated inputs (positional formats cannot express a gap; letter classes of some readers end at l = 11).', '6/C03')
+
 NOT_YET = {}
 
 
